@@ -12,7 +12,7 @@ from pbt.common import impl
 from pbt.common.core import Violation, digest, enc, hyp_seed, run_hypothesis
 from pbt.gen import exprs as ge
 from pbt.refsem import library as rl
-from pbt.refsem.values import is_number, values_equal
+from pbt.refsem.values import is_number, ref_compare, values_equal
 
 ID = 'C15'
 LEVEL = 'exploration'
@@ -51,6 +51,31 @@ def lit(v):
     return ge.quote_single(v)
 
 
+# match functions: what they return is tested for truth as the language does (null, false, 0, '', [] are false; everything else - the
+# empty object too - is true). name -> (script body, the same function over model values)
+MATCHERS = {
+    'mEmptyObj': ("return objectNew()", lambda v: {}),
+    'mEmptyArr': ("return arrayNew()", lambda v: []),
+    'mIsTwo': ("return vv == 2", lambda v: ref_compare(v, 2.0) == 0),
+    'mSelf': ("return vv", lambda v: v),
+    'mText': ("return if(vv == 2, 'x', '')", lambda v: 'x' if ref_compare(v, 2.0) == 0 else ''),
+    'mZero': ("return 0", lambda v: 0.0),
+    'mNothing': ("return", lambda v: None),
+    'mObjIfArr': ("return if(systemType(vv) == 'array', objectNew(), null)", lambda v: {} if isinstance(v, list) else None),
+}
+MATCHER_PRELUDE = '\n'.join('function %s(vv):\n    %s\nendfunction' % (n, body) for n, (body, _) in sorted(MATCHERS.items()))
+
+
+class _Matcher:
+    """Model-side stand-in for a script match function."""
+
+    def __init__(self, name):
+        self.name = name
+
+    def __call__(self, args, options=None):
+        return MATCHERS[self.name][1](args[0] if args else None)
+
+
 class Heap:
     """Parallel state: real script globals and the model's values, both keyed by variable name."""
 
@@ -58,6 +83,7 @@ class Heap:
         self.real = {}
         self.model = {}
         self.options = None
+        self.run_line(MATCHER_PRELUDE)      # match functions for arrayIndexOf / arrayLastIndexOf (script functions in the real globals)
 
     def run_line(self, line):
         log = []
@@ -264,6 +290,10 @@ class Machine(RuleBasedStateMachine):
             a = self.pick_arg(rnd, 'any', first)
             texts.append(a[0])
             values.append(a[1])
+        matcher = None
+        if name in ('arrayIndexOf', 'arrayLastIndexOf') and len(texts) >= 2 and rnd.random() < 0.3:
+            matcher = rnd.choice(sorted(MATCHERS))
+            texts[1], values[1] = matcher, _Matcher(matcher)
         # keep repeat counts small
         if name == 'stringRepeat' and len(values) > 1 and is_number(values[1]) and values[1] > 6:
             values[1], texts[1] = 3.0, '3'
@@ -281,7 +311,8 @@ class Machine(RuleBasedStateMachine):
         failed_log = [x for x in log if 'failed with error' in x]
         got = self.h.real.get('r')
         try:
-            expected = rl.MODELS[name](list(values)) if name not in rl.NEEDS_CALL else rl.MODELS[name](list(values), None)
+            expected = rl.MODELS[name](list(values)) if name not in rl.NEEDS_CALL else \
+                rl.MODELS[name](list(values), (lambda f, a: f(a)) if matcher else None)
             outcome = 'ok'
         except rl.FailDefault as f:
             outcome, expected = 'fail-default', f.value
@@ -394,7 +425,8 @@ def _short(v):
 
 UNRESERVED = set('ABCDEFGHIJKLMNOPQRSTUVWXYZabcdefghijklmnopqrstuvwxyz0123456789-_.~')
 ESC_ALPHABET = list('ab.*+?()[]{}|^$\\/-# \t') + ['é', '\U0001f600', '"', "'", ',', ':', '<', '0']
-URL_ALPHABET = list('ab /?#&=+:%@!$\'()*,;[]-_.~"<>\\^`{|}') + ['é', '\U0001f600', '\x7f', '\t']
+URL_ALPHABET = list('ab /?#&=+:%@!$\'()*,;[]-_.~"<>\\^`{|}') + ['é', '\U0001f600', '\x7f', '\t'] + \
+    ['e\u0301', '\u0301', '\u212b', '\u2126', '\u1100\u1161', '\uf900', '\ufb01', '\u00c5', '\u0041\u030a', '\u3000', '\u200d', '%41', '%e9', '%', '\u0130', '\u00df']   # not in NFC / NFKC form, case-folding oddities
 _esc = {}
 
 
